@@ -61,7 +61,8 @@ type harness struct {
 	checks []check
 	groups int
 	// probes
-	mustLoadFatal bool           // malformed file terminates the process (unfixed DefaultFileParser)
+	mustLoadFatal bool // malformed file terminates the process (unfixed DefaultFileParser)
+	faultChecks   int
 	hangs         map[string]int // hangs seen per re-entrant observer kind (a kind that hung twice is not tried again)
 }
 
@@ -999,12 +1000,15 @@ func main() {
 	lap("write-back stream")
 	h.streamHistory(nHist, steps)
 	lap("history stream")
+	h.streamWriteFault()
+	lap("write-fault children")
 	h.runDriver()
 	lap("driver + comparison")
 	h.streamCrash()
 	lap("crash-prefix replay + poller")
 	h.streamRace()
-	lap("race child")
+	h.streamReset()
+	lap("race + reset children")
 
 	os.RemoveAll(tmp)
 	rep.Write(env.Out)
